@@ -119,8 +119,8 @@ STAR_PROJECTS = [
 
 
 def c05stages_rule():
-    from props import c05stages
-    return c05stages.RULE
+    from props import c05stages, c05reexport
+    return c05stages.RULE + ". " + c05reexport.RULE
 
 
 def run(tier, seed, build):
@@ -315,6 +315,9 @@ def replay(path):
     j = json.load(open(path))
     print(json.dumps(j, indent=1)[:6000])
     case = j.get("case") or {}
+    if isinstance(case, dict) and str(case.get("stage", "")).startswith(("reexport:", "shadowed-module")):
+        from props import c05reexport
+        return c05reexport.replay_case(case)
     if isinstance(case, dict) and ("base_files" in case or "history" in case):
         # re-run a project / history case against the rattr under test
         from props import c05proj as cp
